@@ -16,6 +16,11 @@ void bodyRun(MNode* m) {
   const uint32_t r = m->runs.fetch_add(1, std::memory_order_relaxed);
   const uint64_t s = vrt::stamp();
   if (r == 0) m->start.store(s, std::memory_order_relaxed);
+  if (m->throwNow) { // throwing step: the body ends here, by exception
+    m->end.store(vrt::stamp(), std::memory_order_relaxed);
+    vrt::progress();
+    throw GraphThrow{m->id};
+  }
   const long now = g_inflight.fetch_add(1, std::memory_order_relaxed) + 1;
   long mx = g_maxInflight.load(std::memory_order_relaxed);
   while (now > mx && !g_maxInflight.compare_exchange_weak(mx, now, std::memory_order_relaxed)) {
@@ -44,7 +49,7 @@ void bodyRun(MNode* m) {
 }
 
 J CaseParams::json() const {
-  static const char* themes[] = {"basic", "clear", "add", "move", "graph-clear", "mix"};
+  static const char* themes[] = {"basic", "clear", "add", "move", "graph-clear", "mix", "throw"};
   return J()
       .kv("graph", biprop ? "BiPropGraph" : "Graph")
       .kv("n", n)
@@ -65,7 +70,8 @@ J CaseParams::json() const {
       .kv("loadFactor", lf)
       .kv("freshExecutors", fresh)
       .kv("firstByFP", firstByFP)
-      .kv("allowMerge", allowMerge);
+      .kv("allowMerge", allowMerge)
+      .kv("graphHooks", graphHooks);
 }
 
 template void runProgram<dispenso::Graph>(vrt::Rng&, const CaseParams&, bool, StepStats&, bool);
@@ -95,8 +101,8 @@ static CaseParams genParams(vrt::Rng& r, bool prop31) {
   p.exec = r.chance(0.75) ? static_cast<int>(r.below(kNumExec)) : -1;
   if (prop31) p.theme = 0;
   else {
-    const int themes[] = {0, 0, 1, 1, 1, 2, 3, 4, 5, 5};
-    p.theme = themes[r.below(10)];
+    const int themes[] = {0, 0, 1, 1, 1, 2, 3, 4, 5, 5, 6, 6, 6};
+    p.theme = themes[r.below(13)];
   }
   p.steps = static_cast<int>(prop31 ? r.range(3, th ? 12 : 8) : r.range(1, th ? 10 : 5));
   p.dwell = static_cast<int>(r.below(3));
@@ -112,6 +118,7 @@ static CaseParams genParams(vrt::Rng& r, bool prop31) {
   // C30: most BiProp cases keep every propagation set's member list in one piece (an edge that would
   // join two existing sets is declared as a plain dependency instead); the rest, and all of C31, may join sets
   p.allowMerge = prop31 || r.chance(0.35);
+  p.graphHooks = r.chance(0.25);
   return p;
 }
 
@@ -121,7 +128,7 @@ static std::string poolClass(int pool) {
 
 static void runCases(bool prop31) {
   const long n = vrt::g_args.getInt("n", prop31 ? (vrt::thorough() ? 40000 : 2400) : (vrt::thorough() ? 40000 : 2400));
-  static const char* themes[] = {"basic", "clear", "add", "move", "graph-clear", "mix"};
+  static const char* themes[] = {"basic", "clear", "add", "move", "graph-clear", "mix", "throw"};
   for (long idx = 0; idx < n; ++idx) {
     if (!vrt::selected(idx)) continue;
     vrt::Rng r = vrt::caseRng(idx);
@@ -145,6 +152,10 @@ static void runCases(bool prop31) {
     vrt::hooksReset();
     vrt::futexReset();
     if (p.perturb > 0) vrt::hookProbAll(p.perturb);
+    if (p.graphHooks) { // the windows between Node::run() and the dependents' counter decrements
+      vrt::hookProb(V::kGraphAfterNodeRun, 0.3);
+      vrt::hookProb(V::kGraphBetweenDependents, 0.3);
+    }
     if (p.futexMode == 1) vrt::futexPreWaitDelay(0.3, 200);
     else if (p.futexMode == 2) vrt::futexSpurious(0.1);
     g_dwellMode = p.dwell;
